@@ -382,7 +382,7 @@ class Unit:
         """returns (text, linemap) ; linemap[i] (0-based generated line) = dict or None"""
         self.files = {}
         out = []      # list of (line_text, origin) ; origin = (entry, orig_line or None) | None
-        self.desugar_log = []
+        self.desugar_log = list(getattr(self, 'build_log', []))     # (desugarings decided while the unit was built)
         self.dropped = set()
         self.twin_names = []
         self.guards_ok = []
